@@ -92,6 +92,15 @@ class ClassRef:
     def __repr__(self):
         return "<class %s>" % self.qual
 
+    def __eq__(self, o):
+        return isinstance(o, ClassRef) and o.qual == self.qual
+
+    def __ne__(self, o):
+        return not self == o
+
+    def __hash__(self):
+        return hash(self.qual)
+
 
 class ModuleRef:
     def __init__(self, name):
